@@ -30,7 +30,20 @@ def mutate(rng, t, named):
         ents = named[pl]
         kind = rng.choice(["dup_entry", "dup_infoset", "drop", "unknown", "other_player", "bad_action",
                            "bad_single_action", "weird_weight", "zero_infoset", "empty_actions", "reorder", "tiny_infoset",
-                           "tiny_infoset", "huge_infoset"])
+                           "tiny_infoset", "huge_infoset", "single_swap", "single_swap"])
+        if kind == "single_swap":
+            # one single-action infoset left out, another one of the same player mentioned once more (a repeated entry,
+            # or its only action named twice): the number of single-action entries still fits, the coverage does not
+            sing = [e for e in ents if e[0] in singles[pl + 1]]
+            if len(sing) >= 2:
+                gone, kept = rng.sample(sing, 2)
+                ents.remove(gone)
+                if rng.random() < 0.5:
+                    ents.insert(rng.randrange(len(ents) + 1), [kept[0], [list(x) for x in kept[1]]])
+                else:
+                    kept[1].append(list(kept[1][0]))
+            else:
+                kind = "reorder"
         if kind == "reorder":
             rng.shuffle(ents)
         elif kind == "dup_entry" and ents:
